@@ -5,7 +5,7 @@
    120-129 latex wrapper | 130-149 splitter | 150-159 round trip | 160-179 heap *)
 From Coq Require Import List NArith ZArith Bool.
 From BP Require Import Base.Chars Base.Sx Run.Codec.
-From BP Require Import Run.RunMonth Run.RunSplitter Run.RunEntry Run.RunLibrary Run.RunSortFields Run.RunSortBlocks Run.RunWriter Run.RunStack Run.RunEnclosing Run.RunInterpolate Run.RunLatex Run.RunGrammar Run.RunHeap.
+From BP Require Import Run.RunMonth Run.RunSplitter Run.RunEntry Run.RunLibrary Run.RunSortFields Run.RunSortBlocks Run.RunWriter Run.RunStack Run.RunEnclosing Run.RunInterpolate Run.RunLatex Run.RunGrammar Run.RunHeap Run.RunPipeline.
 Import ListNotations.
 Local Open Scope Z_scope.
 
@@ -27,6 +27,7 @@ Definition run_case (x : sx) : sx :=
       else if in_range 120 129 op then run_latex op args
       else if in_range 133 134 op then run_grammar op args
       else if in_range 130 149 op then run_splitter op args
+      else if in_range 150 159 op then run_pipeline op args
       else if in_range 160 179 op then run_heap op args
       else sx_err
   | _ => sx_err
